@@ -69,6 +69,13 @@ CLAIMS["C08"] = dict(text="bounded symbolic model checking, one inductive step p
                     "the returned state agree on the active indices, labels are q[index] in index order, invalid targets raise RegRefError (front end) "
                     "or ValueError/IndexError (backend API) leaving the state unchanged, and -- decided by the solver because the data are symbolic -- "
                     "every untouched mode carries its own data", design_ref="5/C08")
+CLAIMS["C18"] = dict(text="bounded symbolic model checking: for every pair of programs over the listed alphabet (R, S, D with symbolic parameters, "
+                    "generic and symmetric beamsplitters in both mode orders, daggered variants; prefixes included) up to the length bound, the real "
+                    "Program.__eq__ / Program.equivalence are executed with their parameter comparisons forking on real-arithmetic predicates, and on "
+                    "every path that reports True the solver proves that both programs map an ARBITRARY symbolic state to the same state on the real "
+                    "Gaussian backend; plus reflexivity, symmetry of the returned value and invariance of equivalence under swapping adjacent commands "
+                    "on disjoint modes", design_ref="5/C18",
+                    note=NOTE + "; beamsplitter parameters are numeric instances (the mod-pi reduction of a symbolic angle inside program_equivalence makes the queries mixed integer/non-linear)")
 NA_DEFAULT = "check not built yet in this session (plan: DESIGN.md section 5)"
 NA = {}
 
